@@ -407,6 +407,12 @@ impl Universe {
 			let m = ca(&u, s8, [&ka, &kc], [&keys.b_other[0], &keys.b_other[1]], chain_hash, vec![]);
 			u.push_ca("ca8_noutxo", "invalid:ca_no_utxo", true, m);
 		}
+		{
+			// equivocation by the owners of channel 1's funding keys: same outpoint, same bitcoin keys,
+			// but node ids A and C. Every signature verifies and the script matches the chain.
+			let m = ca(&u, s1, [&ka, &kc], [&keys.b_ch1[0], &keys.b_ch1[1]], chain_hash, vec![]);
+			u.push_ca("ca1x", "conflict:ca_same_outpoint_other_nodes", false, m);
+		}
 
 		// ---- channel updates ---------------------------------------------------------------
 		struct U {
